@@ -18,7 +18,7 @@ import (
 const shimBase = "verif/shim/"
 
 type stats struct {
-	Files, SyncImports, GoStmts, Recvs, Sends, Sleeps, Selects, Closes, TryLocks int
+	Files, SyncImports, GoStmts, Recvs, Sends, Sleeps, Selects, Closes, TryLocks, StmtPointFuncs, AtomicPoints int
 	Unmodelled                                                        []string
 }
 
@@ -117,6 +117,7 @@ type rw struct {
 	fset               *token.FileSet
 	file               *ast.File
 	syncName, timeName string
+	atomicName         string
 	needSched, needChan, needTime bool
 	changed            bool
 	tmp                int
@@ -141,6 +142,16 @@ func rewrite(path string, src []byte) ([]byte, bool, error) {
 			imp.Path.Value = strconv.Quote(shimBase + "vsync")
 			r.changed = true
 			st.SyncImports++
+		case "sync/atomic":
+			r.atomicName = "atomic"
+			if imp.Name != nil {
+				r.atomicName = imp.Name.Name
+			}
+			// the hot state/flag words are read in every polling loop: a point there would only multiply
+			// the schedules of whole-interpreter runs (their readers already yield in the Sleep of the loop)
+			if strings.HasSuffix(path, "lang/state/state.go") || strings.HasSuffix(path, "lang/process/background.go") {
+				r.atomicName = ""
+			}
 		case "time":
 			r.timeName = "time"
 			if imp.Name != nil {
@@ -149,6 +160,7 @@ func rewrite(path string, src []byte) ([]byte, bool, error) {
 		}
 	}
 	r.walkNode(f)
+	r.statementPoints(path)
 	if !r.changed {
 		return nil, false, nil
 	}
@@ -171,6 +183,55 @@ func rewrite(path string, src []byte) ([]byte, bool, error) {
 		return nil, false, err
 	}
 	return buf.Bytes(), true, nil
+}
+
+// stmtPointFuncs: functions whose interaction with other threads goes through something that is not a Go
+// synchronisation operation (the file system), so that no scheduling point would otherwise fall inside them.
+// Every statement of their bodies is preceded by a scheduling point (file suffix -> function names).
+var stmtPointFuncs = map[string][]string{
+	"shell/history/history.go": {"Write"},
+}
+
+func (r *rw) statementPoints(path string) {
+	for suffix, names := range stmtPointFuncs {
+		if !strings.HasSuffix(path, suffix) {
+			continue
+		}
+		for _, d := range r.file.Decls {
+			fd, ok := d.(*ast.FuncDecl)
+			if !ok || fd.Body == nil {
+				continue
+			}
+			for _, n := range names {
+				if fd.Name.Name == n {
+					r.pointBlock(fd.Body)
+					r.changed, r.needSched = true, true
+					st.StmtPointFuncs++
+				}
+			}
+		}
+	}
+}
+
+func (r *rw) pointBlock(b *ast.BlockStmt) {
+	var out []ast.Stmt
+	for _, s := range b.List {
+		switch x := s.(type) {
+		case *ast.IfStmt:
+			r.pointBlock(x.Body)
+			if eb, ok := x.Else.(*ast.BlockStmt); ok {
+				r.pointBlock(eb)
+			}
+		case *ast.ForStmt:
+			r.pointBlock(x.Body)
+		case *ast.RangeStmt:
+			r.pointBlock(x.Body)
+		case *ast.BlockStmt:
+			r.pointBlock(x)
+		}
+		out = append(out, &ast.ExprStmt{X: call("zzvsched", "UserPoint")}, s)
+	}
+	b.List = out
 }
 
 func (r *rw) pos(n ast.Node) string { return r.fset.Position(n.Pos()).String() }
@@ -218,7 +279,64 @@ func (r *rw) walkNode(n ast.Node) {
 	r.exprPass(n)
 }
 
+// usesAtomic: does the statement itself (not a nested block) call a sync/atomic function?
+func (r *rw) usesAtomic(s ast.Stmt) bool {
+	if r.atomicName == "" {
+		return false
+	}
+	var roots []ast.Node
+	switch x := s.(type) {
+	case *ast.ExprStmt, *ast.AssignStmt, *ast.ReturnStmt, *ast.IncDecStmt, *ast.DeclStmt:
+		roots = append(roots, x)
+	case *ast.IfStmt:
+		if x.Init != nil {
+			roots = append(roots, x.Init)
+		}
+		roots = append(roots, x.Cond)
+	case *ast.SwitchStmt:
+		if x.Init != nil {
+			roots = append(roots, x.Init)
+		}
+		if x.Tag != nil {
+			roots = append(roots, x.Tag)
+		}
+	default:
+		return false
+	}
+	found := false
+	for _, root := range roots {
+		ast.Inspect(root, func(n ast.Node) bool {
+			if _, ok := n.(*ast.FuncLit); ok {
+				return false
+			}
+			if c, ok := n.(*ast.CallExpr); ok {
+				if sel, ok := c.Fun.(*ast.SelectorExpr); ok {
+					if id, ok := sel.X.(*ast.Ident); ok && id.Name == r.atomicName {
+						found = true
+					}
+				}
+			}
+			return !found
+		})
+	}
+	return found
+}
+
 func (r *rw) stmts(list []ast.Stmt) []ast.Stmt {
+	// a scheduling point before every statement that performs an atomic operation: two atomic operations in
+	// consecutive statements (load ... store) are not atomic together
+	if r.atomicName != "" {
+		var out []ast.Stmt
+		for _, s := range list {
+			if r.usesAtomic(s) {
+				out = append(out, &ast.ExprStmt{X: call("zzvsched", "UserPoint")})
+				r.changed, r.needSched = true, true
+				st.AtomicPoints++
+			}
+			out = append(out, s)
+		}
+		list = out
+	}
 	for i, s := range list {
 		switch x := s.(type) {
 		case *ast.GoStmt:
